@@ -595,7 +595,7 @@ func (e *Exec) frameObligations(st *State, pos token.Pos) {
 		}
 	}
 	sortStrings(keys)
-	if st.baseTag != e.entry.baseTag {
+	if st.baseTag != e.entry.baseTag || st.baseSel != nil {
 		e.addObl("frame", "callout", "function with a modifies clause calls out to unknown code", e.fc.Props, st, False, pos)
 		return
 	}
@@ -671,6 +671,14 @@ func (e *Exec) siteAsserts(ins ssa.Instruction, callee string, args []Value, st 
 			if callee != sa.Pattern {
 				continue
 			}
+		} else if when == "at" {
+			if !strings.Contains(callee, sa.Pattern) {
+				continue
+			}
+			if root.counts[fmt.Sprintf("atfired:%d:%s", ai, callee)] > 0 {
+				continue
+			}
+			root.counts[fmt.Sprintf("atfired:%d:%s", ai, callee)]++
 		} else if !strings.Contains(callee, sa.Pattern) {
 			continue
 		}
@@ -883,6 +891,17 @@ func (e *Exec) specialCall(ins ssa.Instruction, key string, fn *ssa.Function, ar
 		e.ctx.assumes["sync/atomic operations modelled with single-goroutine semantics"]++
 		e.storeAt(st, args[0].(PtrV), args[1])
 		return nil, true
+	case "errors.New", "fmt.Errorf":
+		id := Fresh("err", Ref)
+		e.ctx.assume(Lt(ConstI(0, Ref), id))
+		return IfaceV{ID: id}, true
+	case "os.NewSyscallError":
+		// nil iff the wrapped error is nil
+		id := Fresh("syserr", Ref)
+		inner := e.scalarOf(args[1])
+		e.ctx.assume(Eq(Eq(id, ConstI(0, Ref)), Eq(inner, ConstI(0, Ref))))
+		e.ctx.assume(Le(ConstI(0, Ref), id))
+		return IfaceV{ID: id}, true
 	case "sync/atomic.AddInt32", "sync/atomic.AddInt64", "sync/atomic.AddUint32", "sync/atomic.AddUint64":
 		e.ctx.assumes["sync/atomic operations modelled with single-goroutine semantics"]++
 		p := args[0].(PtrV)
